@@ -184,6 +184,10 @@ def check_order(cfg, acc):
                 acc.count("ladders_at_noise_floor")
                 continue
             slope = izoo.loglog_slope(LADDER, errs)
+            # the coarsest steps may be pre-asymptotic (components of the error changing sign):
+            # accept if either the fitted slope or the slope between the two finest steps
+            # shows third-order local error
+            slope = max(slope, izoo.loglog_slope(LADDER[-2:], errs[-2:]))
             if slope < 2.5:
                 viol("order", "local_error_order", {"slope": slope, "errors": errs},
                      "slope >= 2.5 (local error O(eps^3))", state=si, dir=sgn)
